@@ -2,12 +2,12 @@ package main
 
 import (
 	"bytes"
-	"regexp"
 	"context"
 	"fmt"
 	"os"
 	"os/exec"
 	"path/filepath"
+	"regexp"
 	"strings"
 	"sync"
 	"time"
@@ -67,7 +67,7 @@ func race(file string, timeoutS int, concrete bool) (verdict, solver, output str
 	defer cancel()
 	type ans struct {
 		verdict, solver, out string
-		secs            float64
+		secs                 float64
 	}
 	ch := make(chan ans, len(solvers))
 	start := time.Now()
